@@ -57,8 +57,8 @@ import (
 // The identifiers below are PLACEHOLDERS until the findings are registered in
 // /verif/known_findings.json; replace them by the assigned ids.
 const (
-	findingLastHang = "C11-CURSOR-LAST-HANG"
-	findingPrevSkip = "C11-CURSOR-PREV-SKIP"
+	findingLastHang = "F14"
+	findingPrevSkip = "F15"
 )
 
 func thorough() bool { return os.Getenv("VERIF_TIER") == "thorough" }
